@@ -93,6 +93,7 @@ def main(argv):
         for ob in eng.obls:
             ob.bundle = bname
             ob.logic = getattr(D, 'smt_logic', 'ALL')
+            ob.portfolio = getattr(D, 'portfolio', False)
         all_obls += eng.obls
         functions.update({'%s [%s]' % (q, bname): v for q, v in eng.functions_run.items()})
         unsupported += [(bname,) + u for u in eng.unsupported]
